@@ -14,6 +14,41 @@
 
 using namespace KDBindings;
 
+// C19 on the property layer: with -DHEAP_ACCOUNTING (a separate binary, built without sanitizers) every allocation of the process goes
+// through the counting operator new below; `heapmark` remembers the number of bytes currently held, `heapcheck` prints by how much
+// that number has changed.  The interpreter itself keeps no history (observations are printed and forgotten), so between two points
+// at which its own tables have the same content the difference is the library's.
+#ifdef HEAP_ACCOUNTING
+#include <new>
+static long g_heapLive = 0;
+static void *countedAlloc(std::size_t n)
+{
+    void *p = std::malloc(n + 16);
+    if (!p)
+        throw std::bad_alloc();
+    *static_cast<std::size_t *>(p) = n;
+    g_heapLive += static_cast<long>(n);
+    return static_cast<char *>(p) + 16;
+}
+static void countedFree(void *q) noexcept
+{
+    if (!q)
+        return;
+    void *p = static_cast<char *>(q) - 16;
+    g_heapLive -= static_cast<long>(*static_cast<std::size_t *>(p));
+    std::free(p);
+}
+void *operator new(std::size_t n) { return countedAlloc(n); }
+void *operator new[](std::size_t n) { return countedAlloc(n); }
+void operator delete(void *p) noexcept { countedFree(p); }
+void operator delete[](void *p) noexcept { countedFree(p); }
+void operator delete(void *p, std::size_t) noexcept { countedFree(p); }
+void operator delete[](void *p, std::size_t) noexcept { countedFree(p); }
+#else
+static long g_heapLive = 0;
+#endif
+static long g_heapMark = 0;
+
 static void out(const std::string &s)
 {
     fputs(s.c_str(), stdout);
@@ -308,6 +343,14 @@ void World::exec(const std::vector<std::string> &t)
             std::exit(3);
         }
         bevs.erase(I(t[1]));
+    } else if (o == "heapmark") {
+        g_heapMark = g_heapLive;
+    } else if (o == "heapcheck") {
+#ifdef HEAP_ACCOUNTING
+        out("heap " + std::to_string(g_heapLive - g_heapMark));
+#else
+        out("heap n/a");
+#endif
     } else if (o == "evalall") {
         if (!bevs.count(I(t[1]))) {
             out("harness-error evalall");
